@@ -195,7 +195,7 @@ def model_check(ctx, module, cfg, workers=8, heap="6g", timeout=3600, label=None
     """M |= P inside the bounds of cfg (a file in spec/). Counts go to the evidence."""
     t = time.time()
     r = tlc(module, os.path.join(SPEC, cfg) if not os.path.isabs(cfg) else cfg, ctx.path("mc_" + (label or cfg)),
-            workers=workers, heap=heap, timeout=timeout, serial=False)
+            workers=workers, heap=heap, timeout=timeout, serial=False, deque=True)   # in-memory queue: TLC's disk queue mangles non-ASCII strings in states
     ctx.mc_states += r["distinct"]
     ctx.mc_transitions += r["generated"]
     ctx.mc_runs.append(dict(module=module, cfg=os.path.basename(cfg), distinct=r["distinct"],
@@ -208,7 +208,7 @@ def model_check(ctx, module, cfg, workers=8, heap="6g", timeout=3600, label=None
 def mutant_refuted(ctx, module, cfg_text_path, label):
     """A Bug_* mutant of M must be refuted by TLC (negative control / non-vacuity)."""
     r = tlc(module, cfg_text_path, ctx.path("mut_" + label), workers=4, heap="3g", timeout=900, serial=False,
-            expect_error=True)
+            expect_error=True, deque=True)
     refuted = r["rc"] != 0 and ("violated" in r["out"] or "Assert" in r["out"] or "is violated" in r["out"])
     ctx.extra.setdefault("mutants", {})[label] = "refuted" if refuted else "NOT refuted"
     if not refuted:
